@@ -14,12 +14,24 @@
 //!           both stably sorted by key (HashMap order); out = ["ok", run1, run2].
 //!   "cmpg": in = [entry, k, seed, mode1, mode2, data]; out = ["ok", out(mode1), out(mode2)]
 //!   "cmpk": same for the per-key entry points.
+//!   "j":    in = [entry, k, seed, mode, route, [[key, v], ..]]  the per-key sample collected directly
+//!           (route 0) or as the input of a join (1 = left of join_inner, 2 = left of join_left,
+//!           3 = right of join_inner; the other side has one row (key, 3*key+1) per key), output as
+//!           for "k"; out = ["ok", first collect, second collect of the SAME collection].
+//!   "bg":   in = [entry, k, seed, mode, [start, step, n]]  global sample of start, start+step, ..
+//!           (n values); out = ["ok", r1, r2], r = [shape_ok, len, d1, d2, ms, mq, sub] (digests of
+//!           the sample, see `digest`; sub = sample is a sub-multiset of the input; shape_ok = the
+//!           `_vec` collection has exactly one element), first / second collect of one collection.
+//!   "bk":   in = [entry, k, seed, mode, route, [[kmod, kbase, start, step, count], ..]]  rows
+//!           (kbase + i % kmod, start + step * i), i < count, segments concatenated; routes as "j";
+//!           out = ["ok", r1, r2], r = [[key, len, d1, d2, ms, mq, sub], ..] sorted by key.
 //!   "expr": in = [k, seed, e]; e = [0] create | [1, e, v] add_input | [2, l, r] merge(l, r)
 //!           | [3, vs] build_from_group(vs); out = ["ok", finish(e)].
 use ibv::{Emitter, SplitMix64, Tier, drive, err, ok};
 use ironbeam::collection::{CombineFn, LiftableCombiner};
 use ironbeam::combiners::PriorityReservoir;
-use ironbeam::{Pipeline, from_vec};
+use ironbeam::{PCollection, Pipeline, RFBound, from_vec};
+use std::collections::HashMap;
 use serde_json::{Value, json};
 
 fn ints(v: &Value) -> Vec<i64> {
@@ -84,6 +96,180 @@ fn run_keyed(entry: i64, k: usize, seed: u64, mode: i64, data: &[(i64, i64)]) ->
     }
 }
 
+
+// ------------------------------------------------------------------ big / routed cases
+
+const P1: u64 = 2_147_483_647;
+const P2: u64 = 2_147_483_629;
+/// [len, d1, d2, ms, mq] (mirrored by `digest` in Corr/C14.v)
+fn digest(vs: &[i64]) -> Vec<Value> {
+    let (mut d1, mut d2, mut ms, mut mq) = (7u64, 7u64, 0u64, 0u64);
+    for &v in vs {
+        let x = v as u64;
+        let (x1, x2) = (x % P1, x % P2);
+        d1 = (d1 * 1_000_003 + x1 + 1) % P1;
+        d2 = (d2 * 2_000_003 + x2 + 1) % P2;
+        ms = (ms + x1) % P1;
+        mq = (mq + (x1 * x1) % P1) % P1;
+    }
+    vec![json!(vs.len()), json!(d1), json!(d2), json!(ms), json!(mq)]
+}
+/// every value of `sample` occurs in `input` at least as often
+fn submultiset(sample: &[i64], input: &[i64]) -> bool {
+    let mut cnt: HashMap<i64, i64> = HashMap::new();
+    for &v in input {
+        *cnt.entry(v).or_insert(0) += 1;
+    }
+    sample.iter().all(|v| match cnt.get_mut(v) {
+        Some(c) if *c > 0 => {
+            *c -= 1;
+            true
+        }
+        _ => false,
+    })
+}
+fn seg_rows(segs: &Value) -> Vec<(i64, i64)> {
+    let mut rows = Vec::new();
+    for s in segs.as_array().unwrap() {
+        let f = |i: usize| s[i].as_i64().unwrap();
+        let (kmod, kbase, start, step, count) = (f(0), f(1), f(2), f(3), f(4));
+        for i in 0..count {
+            rows.push((kbase + i % kmod, start + step * i));
+        }
+    }
+    rows
+}
+/// first and second collect of the SAME collection
+fn collect2<T: RFBound>(c: PCollection<T>, mode: i64) -> Option<[Vec<T>; 2]> {
+    let a = collect(c.clone(), mode).ok()?;
+    let b = collect(c, mode).ok()?;
+    Some([a, b])
+}
+fn conv<A, V>(r: [Vec<A>; 2], f: impl Fn(A) -> Option<(i64, V)>) -> Option<[Vec<(i64, V)>; 2]> {
+    let [a, b] = r;
+    let a: Option<Vec<_>> = a.into_iter().map(&f).collect();
+    let b: Option<Vec<_>> = b.into_iter().map(&f).collect();
+    Some([a?, b?])
+}
+/// the per-key sample `s`, collected directly or through a join with the dimension table
+fn routed<V: RFBound>(
+    s: PCollection<(i64, V)>,
+    dim: &PCollection<(i64, i64)>,
+    route: i64,
+    mode: i64,
+) -> Option<[Vec<(i64, V)>; 2]> {
+    let w_ok = |k: i64, w: i64| w == 3 * k + 1;
+    let mut r = match route {
+        0 => collect2(s, mode)?,
+        1 => conv(collect2(s.join_inner(dim), mode)?, |(k, (v, w))| w_ok(k, w).then_some((k, v)))?,
+        2 => conv(collect2(s.join_left(dim), mode)?, |(k, (v, w))| {
+            w.is_some_and(|w| w_ok(k, w)).then_some((k, v))
+        })?,
+        _ => conv(collect2(dim.join_inner(&s), mode)?, |(k, (w, v))| w_ok(k, w).then_some((k, v)))?,
+    };
+    for x in &mut r {
+        x.sort_by_key(|kv| kv.0); // stable: per-key order kept
+    }
+    Some(r)
+}
+/// entry 0: one (key, sample) row per output element; entry 1: the flattened rows grouped by key
+fn run_routed(entry: i64, k: usize, seed: u64, mode: i64, route: i64, data: &[(i64, i64)]) -> Option<[Vec<(i64, Vec<i64>)>; 2]> {
+    let p = Pipeline::default();
+    let c = from_vec(&p, data.to_vec());
+    let mut keys: Vec<i64> = data.iter().map(|kv| kv.0).collect();
+    keys.sort_unstable();
+    keys.dedup();
+    let dim = from_vec(&p, keys.iter().map(|&k| (k, 3 * k + 1)).collect::<Vec<_>>());
+    if entry == 0 {
+        routed(c.sample_values_reservoir_vec(k, seed), &dim, route, mode)
+    } else {
+        let [a, b] = routed(c.sample_values_reservoir(k, seed), &dim, route, mode)?;
+        let group = |v: Vec<(i64, i64)>| {
+            let mut out: Vec<(i64, Vec<i64>)> = Vec::new();
+            for (key, x) in v {
+                match out.last_mut() {
+                    Some(g) if g.0 == key => g.1.push(x),
+                    _ => out.push((key, vec![x])),
+                }
+            }
+            out
+        };
+        Some([group(a), group(b)])
+    }
+}
+fn run_j(input: &Value) -> Value {
+    let (entry, k) = (input[0].as_i64().unwrap(), k_of(&input[1]));
+    let (seed, mode, route) = (seed_of(&input[2]), input[3].as_i64().unwrap(), input[4].as_i64().unwrap());
+    match run_routed(entry, k, seed, mode, route, &pairs(&input[5])) {
+        Some([a, b]) => {
+            let enc = |g: Vec<(i64, Vec<i64>)>| {
+                if entry == 0 {
+                    Value::Array(g.into_iter().map(|(key, vs)| json!([key, vs])).collect())
+                } else {
+                    Value::Array(
+                        g.into_iter().flat_map(|(key, vs)| vs.into_iter().map(move |v| json!([key, v]))).collect(),
+                    )
+                }
+            };
+            json!(["ok", enc(a), enc(b)])
+        }
+        None => err("other"),
+    }
+}
+fn run_bk(input: &Value) -> Value {
+    let (entry, k) = (input[0].as_i64().unwrap(), k_of(&input[1]));
+    let (seed, mode, route) = (seed_of(&input[2]), input[3].as_i64().unwrap(), input[4].as_i64().unwrap());
+    let data = seg_rows(&input[5]);
+    let mut by_key: HashMap<i64, Vec<i64>> = HashMap::new();
+    for &(key, v) in &data {
+        by_key.entry(key).or_default().push(v);
+    }
+    match run_routed(entry, k, seed, mode, route, &data) {
+        Some([a, b]) => {
+            let enc = |g: Vec<(i64, Vec<i64>)>| {
+                Value::Array(
+                    g.into_iter()
+                        .map(|(key, vs)| {
+                            let mut row = vec![json!(key)];
+                            row.extend(digest(&vs));
+                            row.push(json!(submultiset(&vs, by_key.get(&key).map_or(&[][..], |v| &v[..]))));
+                            Value::Array(row)
+                        })
+                        .collect(),
+                )
+            };
+            json!(["ok", enc(a), enc(b)])
+        }
+        None => err("other"),
+    }
+}
+fn run_bg(input: &Value) -> Value {
+    let (entry, k) = (input[0].as_i64().unwrap(), k_of(&input[1]));
+    let (seed, mode) = (seed_of(&input[2]), input[3].as_i64().unwrap());
+    let f = |i: usize| input[4][i].as_i64().unwrap();
+    let (start, step, n) = (f(0), f(1), f(2));
+    let data: Vec<i64> = (0..n).map(|i| start + step * i).collect();
+    let p = Pipeline::default();
+    let c = from_vec(&p, data.clone());
+    let row = |shape: bool, s: &[i64]| {
+        let mut r = vec![json!(shape)];
+        r.extend(digest(s));
+        r.push(json!(submultiset(s, &data)));
+        Value::Array(r)
+    };
+    let rows: Option<Vec<Value>> = if entry == 0 {
+        collect2(c.sample_reservoir_vec(k, seed), mode).map(|r| {
+            r.iter().map(|v| row(v.len() == 1, &v.concat())).collect()
+        })
+    } else {
+        collect2(c.sample_reservoir(k, seed), mode).map(|r| r.iter().map(|v| row(true, v)).collect())
+    };
+    match rows {
+        Some(r) => json!(["ok", r[0], r[1]]),
+        None => err("other"),
+    }
+}
+
 fn eval<A, C>(c: &C, e: &Value) -> A
 where
     C: CombineFn<i64, A, Vec<i64>> + LiftableCombiner<i64, A, Vec<i64>>,
@@ -138,6 +324,9 @@ fn run(kind: &str, input: &Value) -> Value {
                 _ => err("other"),
             }
         }
+        "j" => run_j(input),
+        "bg" => run_bg(input),
+        "bk" => run_bk(input),
         "expr" => {
             let c = PriorityReservoir::<i64>::new(k_of(&input[0]), seed_of(&input[1]));
             let acc = eval(&c, &input[2]);
